@@ -262,6 +262,428 @@ def gen(ctx):
     return defs, unknown, tab
 
 
+# ------------------------------------------------------------------ real objects: observation in the shape of w_c16_enc / w_c16_dec
+
+def _cause(e):
+    codec, _ = modules()
+    r = e
+    while r.__cause__ is not None:
+        r = r.__cause__
+    if isinstance(r, (codec.DecodeError, codec.EncodeError)):
+        return 0
+    if isinstance(r, (KeyError, ValueError)) and not isinstance(r, (UnicodeError,)):
+        return 1        # a callback could not answer: KeyError of a dict / ValueError of MTS.get_burst_len (the model: lookup failure)
+    if isinstance(r, OverflowError):
+        return 2
+    if isinstance(r, TypeError):
+        return 3
+    if isinstance(r, ZeroDivisionError):
+        return 4
+    return 99
+
+
+def py_to_val(o, tab):
+    if isinstance(o, dict):
+        return ("VDict", [(tab[k], py_to_val(v, tab)) for k, v in o.items()])
+    if isinstance(o, (list, tuple)):
+        return ("VList", [py_to_val(x, tab) for x in o])
+    if isinstance(o, (bytes, bytearray)):
+        return ("VBytes", bytes(o))
+    return ("VInt", int(o))
+
+
+def real_decode(name, data, tab, chk=True):
+    codec, proto = modules()
+    obj = getattr(proto, name)(check_len=chk)
+    try:
+        used = obj.from_bytes(bytes(data))
+        return [0, 0, used] + cb.val_to_ints(py_to_val(obj.c, tab)), dict(obj.c)
+    except codec.DecodeError as e:
+        return [1, _cause(e)], None
+    except codec.EncodeError as e:
+        return [2, _cause(e)], None
+    except Exception as e:  # noqa
+        return [4, _cause(e)], None
+
+
+def real_encode(name, d):
+    codec, proto = modules()
+    obj = getattr(proto, name)()
+    obj.c = d
+    try:
+        b = obj.to_bytes()
+        return [0, 0, len(b)] + list(b)
+    except codec.EncodeError as e:
+        return [2, _cause(e)]
+    except codec.DecodeError as e:
+        return [1, _cause(e)]
+    except Exception as e:  # noqa
+        return [4, _cause(e)]
+
+
+# ------------------------------------------------------------------ documented layouts, written independently of the codec
+
+BURST_LEN = {0: 148, 1: 148, 2: 148, 3: 148, 4: 444, 5: 444, 6: 148, 8: 592, 9: 592, 10: 740, 11: 740, 12: 296, 13: 296, 14: 296, 15: 296}
+
+
+def be(x, n):
+    return list((x % (1 << (8 * n))).to_bytes(n, "big"))
+
+
+def layout(name, d):
+    """documented octets of the field dict d of PDU class `name`"""
+    if name in ("PDUv0Tx", "PDUv1Tx"):
+        return [d["ver"] * 16 + d["tn"]] + be(d["fn"], 4) + [d["pwr"]] + list(d["hard-bits"])
+    if name == "PDUv0Rx":
+        return [d["tn"]] + be(d["fn"], 4) + [-d["rssi"]] + be(d["toa256"], 2) + list(d["soft-bits"]) + list(d["pad"])
+    mts = [d["nope"] * 128 + d["mod"] * 8 + d["tsc"]] if "nope" in d else []
+    if name == "PDUv1Rx":
+        return ([16 + d["tn"]] + be(d["fn"], 4) + [-d["rssi"]] + be(d["toa256"], 2) + mts + be(d["cir"], 2)
+                + list(d.get("soft-bits", b"")))
+    rx = name == "PDUv2Rx"
+
+    def part(x, main):
+        h0 = (32 if main else 0) + x["tn"]
+        h1 = x["batch"] * 128 + (0 if main else x["shadow"] * 64) + x["trxn"]
+        out = [h0, h1, x["nope"] * 128 + x["mod"] * 8 + x["tsc"]]
+        if rx:
+            out += [-x["rssi"]] + be(x["toa256"], 2) + be(x["cir"], 2)
+        else:
+            out += [x["pwr"], x["scpir"] % 256, 0, 0, 0]
+        if main:
+            out += be(x["fn"], 4)
+        return out + list(x.get("soft-bits" if rx else "hard-bits", b""))
+    out = part(d, True)
+    for s in d["bpdu"]:
+        out += part(s, False)
+    return out
+
+
+# ------------------------------------------------------------------ generators
+
+def g_mts(rng, d, burst_key, soft):
+    if rng.chance(1, 5):
+        d.update(nope=1, mod=rng.choice([0, 0, 5, 7, 15]), tsc=rng.below(8))
+    else:
+        md = rng.choice(sorted(BURST_LEN))
+        d.update(nope=0, mod=md, tsc=rng.below(8))
+        n = BURST_LEN[md]
+        d[burst_key] = bytes(rng.below(256) for _ in range(n)) if rng.chance(1, 2) else bytes([rng.below(256)]) * n
+
+
+def g_v2(rng, rx, nsub):
+    def part(main):
+        x = {}
+        if main:
+            x["ver"] = 2
+        x["tn"] = rng.below(8)
+        x["batch"] = rng.below(2)
+        if not main:
+            x["shadow"] = rng.below(2)
+        x["trxn"] = rng.choice([0, 1, 62, 63]) if rng.chance(1, 2) else rng.below(64)
+        mts = {}
+        g_mts(rng, mts, "soft-bits" if rx else "hard-bits", rx)
+        x.update(nope=mts["nope"], mod=mts["mod"], tsc=mts["tsc"])
+        if rx:
+            x["rssi"] = -rng.choice([0, 1, 47, 120, 254, 255]) if rng.chance(1, 2) else -rng.below(256)
+            x["toa256"] = rng.choice([-32768, -1, 0, 1, 32767]) if rng.chance(1, 2) else rng.range(-32768, 32767)
+            x["cir"] = rng.choice([-32768, -1280, 0, 1280, 32767]) if rng.chance(1, 2) else rng.range(-32768, 32767)
+        else:
+            x["pwr"] = rng.choice([0, 255]) if rng.chance(1, 2) else rng.below(256)
+            x["scpir"] = rng.choice([-128, -1, 0, 127]) if rng.chance(1, 2) else rng.range(-128, 127)
+        if main:
+            x["fn"] = rng.choice([0, 2715647, 2 ** 32 - 1]) if rng.chance(1, 3) else rng.below(2715648)
+        for k in ("soft-bits", "hard-bits"):
+            if k in mts:
+                x[k] = mts[k]
+        return x
+    d = part(True)
+    d["bpdu"] = [part(False) for _ in range(nsub)]
+    return d
+
+
+def g_v01(rng, name):
+    d = dict(ver=0 if "v0" in name else 1, tn=rng.below(8), fn=rng.choice([0, 2715647, 2 ** 32 - 1]) if rng.chance(1, 3) else rng.below(2715648))
+    if name.endswith("Tx"):
+        d["pwr"] = rng.below(256)
+        d["hard-bits"] = bytes(rng.below(2) for _ in range(rng.choice([0, 1, 148, 150, 444, 446])))
+        return {k: d[k] for k in ("ver", "tn", "fn", "pwr", "hard-bits")}
+    d["rssi"] = -rng.below(256)
+    d["toa256"] = rng.range(-32768, 32767)
+    if name == "PDUv0Rx":
+        d["soft-bits"] = bytes(rng.below(256) for _ in range(rng.choice([148, 444])))
+        d["pad"] = bytes(rng.choice([0, 0, 2]))
+        return d
+    g_mts(rng, d, "soft-bits", True)
+    d["cir"] = rng.range(-32768, 32767)
+    order = ["ver", "tn", "fn", "rssi", "toa256", "nope", "mod", "tsc", "cir", "soft-bits"]
+    return {k: d[k] for k in order if k in d}
+
+
+def expected_from_msg(m, legacy):
+    """field dict the clause 'accepted with identical field values' asks for, from a message-codec message"""
+    pad = b"\x00\x00" if (legacy and m["ver"] == 0) else b""
+    if m["kind"] == "tx":
+        return "PDUv%dTx" % m["ver"], dict(ver=m["ver"], tn=m["tn"], fn=m["fn"], pwr=m["pwr"], **{"hard-bits": bytes(m["burst"])}), pad
+    us = None if m["burst"] is None else bytes((127 - s) % 256 for s in m["burst"])
+    if m["ver"] == 0:
+        return "PDUv0Rx", dict(ver=0, tn=m["tn"], fn=m["fn"], rssi=m["rssi"], toa256=m["toa"], **{"soft-bits": us, "pad": pad}), pad
+    d = dict(ver=1, tn=m["tn"], fn=m["fn"], rssi=m["rssi"], toa256=m["toa"])
+    if m["nope"]:
+        d.update(nope=1, mod=0, tsc=0, cir=m["ci"])
+    else:
+        coding = [0, 4, 6, 8, 10, 12][m["mod"]]
+        d.update(nope=0, mod=coding + m["tset"], tsc=m["tsc"], cir=m["ci"])
+        d["soft-bits"] = us
+    return "PDUv1Rx", d, pad
+
+
+def same(a, b):
+    """dict equality with bytes/bytearray normalised"""
+    def norm(x):
+        if isinstance(x, dict):
+            return {k: norm(v) for k, v in x.items()}
+        if isinstance(x, (list, tuple)):
+            return [norm(v) for v in x]
+        if isinstance(x, (bytes, bytearray)):
+            return bytes(x)
+        return x
+    return norm(a) == norm(b)
+
+
+def hexs(b):
+    b = bytes(b)
+    return b.hex() if len(b) <= 48 else "%s...(%d octets)" % (b[:24].hex(), len(b))
+
+
 def run(ctx):
-    gen(ctx)
+    defs, unknown, tab = gen(ctx)
     ctx.prove()
+    if ctx.tier == "thorough":
+        ctx.coqchk()
+    rng = ctx.rng
+    quick = ctx.tier != "thorough"
+    num = {name: number(defs[name][1], tab) for name in PDUS}
+    inv = {v: k for k, v in tab.items()}
+    D = TU.toolkit()
+    cases = []          # dict(op, name, data|d, tag, ...)
+    shown = {}
+
+    def add_dec(name, data, tag, chk=True, **kw):
+        cases.append(dict(op="dec", name=name, data=bytes(data), chk=chk, tag=tag, **kw))
+
+    def add_enc(name, d, tag, **kw):
+        cases.append(dict(op="enc", name=name, d=d, tag=tag, **kw))
+
+    # (1) datagrams of the real message codec: deterministic sweep + random
+    msgs = []
+    for ver in (0, 1):
+        for n in (148, 444):
+            msgs.append(dict(kind="tx", ver=ver, fn=1234, tn=3, pwr=10, burst=[1] * n))
+    for n in (148, 444):
+        msgs.append(dict(kind="rx", ver=0, fn=1234, tn=3, rssi=-60, toa=-5, nope=False, mod=0, tset=None, tsc=None, ci=None, burst=[1] * n))
+    for i in range(6):
+        for ts in range(4 if i == 0 else 2):
+            msgs.append(dict(kind="rx", ver=1, fn=2715647, tn=7, rssi=-120, toa=32767, nope=False, mod=i, tset=ts, tsc=5, ci=-1280,
+                             burst=[-127 + (k % 255) for k in range(TU.MOD_BL[i])]))
+    msgs.append(dict(kind="rx", ver=1, fn=0, tn=0, rssi=-47, toa=-32768, nope=True, mod=None, tset=None, tsc=None, ci=1280, burst=None))
+    for _ in range(150 if quick else 6000):
+        msgs.append(TU.rand_rx(rng) if rng.chance(2, 3) else TU.rand_tx(rng))
+    for m in msgs:
+        for legacy in (False, True):
+            try:
+                b = bytes(TU.real(m).gen_msg(legacy))
+            except ValueError:
+                continue
+            name, exp, pad = expected_from_msg(m, legacy)
+            add_dec(name, b, "msg-codec", msg=m, legacy=legacy, exp=exp, pad=pad)
+            if rng.chance(1, 4):     # the other direction's / version's definition must reject or mis-accept consistently with the model
+                add_dec(rng.choice(PDUS), b, "msg-codec-other-def")
+    # (2) typed PDUs: all six classes, v2 with 0..8 batched sub-PDUs
+    reps = 6 if quick else 150
+    for _ in range(reps):
+        for name in ("PDUv0Rx", "PDUv0Tx", "PDUv1Rx", "PDUv1Tx"):
+            add_enc(name, g_v01(rng, name), "typed")
+        for nsub in range(9):
+            for rx in (True, False):
+                add_enc("PDUv2Rx" if rx else "PDUv2Tx", g_v2(rng, rx, nsub), "typed", nsub=nsub)
+    # encode-side malformed: a missing field, an out-of-range value
+    for c in list(cases):
+        if c["op"] == "enc" and rng.chance(1, 6):
+            d = dict(c["d"])
+            k = rng.choice([k for k in d if k not in ("bpdu",)])
+            if rng.chance(1, 2) or not isinstance(d[k], int):
+                del d[k]
+                add_enc(c["name"], d, "enc-missing")
+            else:
+                d[k] = d[k] + rng.choice([256, 1 << 16, 1 << 32, -(1 << 32)])
+                add_enc(c["name"], d, "enc-range", key=k)
+    ctx.in_flight = None
+    # run the encode cases on the real objects first: their encodings feed the decode cases
+    for c in list(cases):
+        if c["op"] != "enc" or c["tag"] != "typed":
+            continue
+        o = real_encode(c["name"], c["d"])
+        if o[0] != 0:
+            continue
+        b = bytes(o[3:])
+        add_dec(c["name"], b, "typed-encoding", exp=c["d"])
+        r = rng.below(10)
+        if r == 0:
+            add_dec(c["name"], bytes([(b[0] & 0x0f) | (rng.choice([x for x in range(16) if x != b[0] >> 4]) << 4)]) + b[1:], "wrong-version")
+        elif r == 1:
+            add_dec(c["name"], b[:rng.below(len(b))], "truncated")
+        elif r == 2:
+            add_dec(c["name"], b + bytes(rng.below(256) for _ in range(1 + rng.below(3))), "trailing", chk=rng.chance(1, 2))
+        elif r in (3, 4):
+            bb = bytearray(b)
+            bb[0] |= 0x08
+            if c["name"].startswith("PDUv2"):
+                bb[1] |= 0x40
+                if c["name"] == "PDUv2Tx":
+                    for k in (5, 6, 7):
+                        bb[k] = rng.below(256)
+            add_dec(c["name"], bytes(bb), "reserved-set", exp=c["d"], main_only=True)
+        elif r == 5 and c["name"].startswith("PDUv2") and c.get("nsub"):
+            # reserved bits of the first batched sub-PDU: RFU(5) of its first octet, Tx spare octets
+            off = len(layout(c["name"], dict(c["d"], bpdu=[])))
+            bb = bytearray(b)
+            bb[off] |= 0xf8 & (rng.below(256) | 0x08)
+            if c["name"] == "PDUv2Tx":
+                for k in (5, 6, 7):
+                    bb[off + k] = rng.below(256)
+            add_dec(c["name"], bytes(bb), "reserved-set-sub", exp=c["d"])
+    # (3) junk
+    for _ in range(60 if quick else 3000):
+        name = rng.choice(PDUS)
+        n = rng.choice([0, 1, 2, 5, 6, 8, 11, 12, 13, 154, 156, 159, 160, 456, 460])
+        add_dec(name, bytes(rng.below(256) for _ in range(n)), "junk", chk=rng.chance(3, 4))
+
+    def line_of(c):
+        if c["op"] == "dec":
+            return cb.dec_line(c["chk"], num[c["name"]], c["data"])
+        return cb.enc_line(num[c["name"]], py_to_val(c["d"], tab)[1])
+
+    def impl_of(c):
+        ctx.in_flight = (c["op"], c["name"], c["tag"])
+        if c["op"] == "dec":
+            o, d = real_decode(c["name"], c["data"], tab, c["chk"])
+            c["dict"] = d
+        else:
+            o = real_encode(c["name"], c["d"])
+        c["impl"] = o
+        return o
+
+    def show(c):
+        s = dict(op=c["op"], pdu=c["name"], tag=c["tag"])
+        if c["op"] == "dec":
+            s.update(chk=c["chk"], data=hexs(c["data"]))
+        else:
+            s["fields"] = {k: (hexs(v) if isinstance(v, (bytes, bytearray)) else (("%d sub-PDUs" % len(v)) if isinstance(v, list) else v)) for k, v in c["d"].items()}
+        if "msg" in c:
+            s.update(msg=TU.short(c["msg"]), legacy=c["legacy"])
+        return s
+    res = ctx.correspond("trxd-proto", "Codec", cases, line_of, impl_of, show)
+    ctx.in_flight = None
+    if res is None:
+        return
+    capped = {}
+
+    def fail(key, what, c, expected=None, observed=None, cap=3):
+        ctx.count("oracle:" + key)
+        capped[key] = capped.get(key, 0) + 1
+        if capped[key] <= cap:
+            ctx.oracle_fail(what, show(c), key=key, expected=expected, observed=observed)
+
+    for c, m_out, o in res:
+        st = o[0]
+        ctx.count("%s:%s:status%d" % (c["op"], c["tag"], st))
+        ctx.nontrivial((c["op"], c["name"], c["tag"], st, o[1] if st else 0, c.get("nsub"), c.get("legacy"),
+                        (c["msg"]["mod"], c["msg"].get("tset"), bool(c["msg"].get("nope"))) if "msg" in c and c["msg"]["kind"] == "rx" else None))
+        # only the codec's own exceptions
+        if st == 4 or (c["op"] == "dec" and st == 2) or (c["op"] == "enc" and st == 1):
+            fail("c17-otherexc", "an exception other than the codec's own DecodeError/EncodeError escaped (or the wrong one)", c, observed=o[:8], cap=5)
+        if c["op"] == "enc":
+            if c["tag"] == "typed":
+                want = layout(c["name"], c["d"])
+                if st != 0:
+                    fail("c17-layout", "a valid field dict does not encode", c, observed=o[:8])
+                elif list(o[3:]) != want:
+                    fail("c17-layout", "encoding differs from the documented octet layout", c, expected=hexs(want), observed=hexs(o[3:]))
+            elif c["tag"] in ("enc-missing", "enc-range") and st == 0 and c["tag"] == "enc-missing":
+                # a missing fixed 'ver' is fine (fixed values need no user value); anything else must be an EncodeError
+                miss = [k for k in ("tn", "fn") if k not in c["d"]]
+                if miss:
+                    fail("c17-errors", "missing field %r encoded without EncodeError" % miss, c)
+            continue
+        d = c["dict"]
+        tag = c["tag"]
+        if tag == "typed-encoding":
+            if st != 0 or not same(d, c["exp"]) or o[2] != len(c["data"]):
+                fail("c17-roundtrip", "decode(encode(fields)) differs from fields / is not length-exact", c, observed=o[:12])
+            else:
+                if "nope" in d:
+                    bk = "hard-bits" if c["name"] == "PDUv2Tx" else "soft-bits"
+                    parts = [d] + list(d.get("bpdu", []))
+                    for x in parts:
+                        if x["nope"] == 1 and bk in x:
+                            fail("c17-nope-no-burst", "NOPE indication decoded with a burst", c)
+                        if x["nope"] == 0 and len(x[bk]) != BURST_LEN.get(x["mod"]):
+                            fail("c17-burst-len", "burst length is not the table entry of the MOD bits", c)
+        elif tag in ("reserved-set", "reserved-set-sub"):
+            if st != 0 or not same(d, c["exp"]):
+                fail("c17-reserved-ignored", "reserved bits / spare octets set on receipt changed the decoded message", c, observed=o[:12])
+        elif tag == "wrong-version":
+            if o != [1, 0]:
+                fail("c17-wrong-version", "a wrong version nibble was not rejected with DecodeError", c, observed=o[:8])
+        elif tag == "msg-codec":
+            msg, legacy, exp, pad = c["msg"], c["legacy"], c["exp"], c["pad"]
+            if msg["kind"] == "tx":
+                if st == 0 and same(d, exp):
+                    pass
+                elif st == 0 and pad and same(d, dict(exp, **{"hard-bits": exp["hard-bits"] + pad})):
+                    fail("c17-v0tx-legacy-pad-in-hard-bits", "legacy-padded v0 Tx datagram of TxMsg.gen_msg is accepted, but the two padding octets "
+                         "are inside 'hard-bits' (field values not identical)", c, expected="%d octets" % len(exp["hard-bits"]), observed="%d octets" % len(d["hard-bits"]))
+                else:
+                    fail("c17-accepts-msg-codec", "Tx datagram of the message codec not accepted with identical field values", c, observed=o[:12])
+            elif msg["ver"] == 0:
+                if st == 0 and same(d, exp):
+                    pass
+                elif st == 1 and legacy and len(msg["burst"]) == 148:
+                    fail("c17-v0rx-legacy-gmsk-rejected", "legacy-padded GMSK v0 Rx datagram of RxMsg.gen_msg (148 soft bits + 2 padding octets) is rejected "
+                         "by PDUv0Rx (soft-bit length rule answers 444 for 150 octets: Short read)", c, expected="accepted", observed=o)
+                else:
+                    fail("c17-accepts-msg-codec", "v0 Rx datagram of the message codec not accepted with identical field values", c, observed=o[:12])
+            else:
+                if st == 0 and same(d, exp):
+                    pass
+                elif st == 1 and not msg["nope"] and msg["mod"] == 2 and msg["tset"] == 1:
+                    fail("c17-mts-0111-unknown", "v1 Rx datagram with MTS code 0b0111 (GMSK access burst, TSC set 1), valid for the message codec, "
+                         "is rejected by PDUv1Rx (get_burst_len: ValueError)", c, expected="accepted", observed=o)
+                else:
+                    fail("c17-accepts-msg-codec", "v1 Rx datagram of the message codec not accepted with identical field values", c, observed=o[:12])
+        # C16 law on the real objects: whatever decodes (check_len on) re-encodes to the consumed octets' length and decodes again
+        if st == 0 and c["chk"] and tag in ("msg-codec", "typed-encoding", "reserved-set", "junk", "msg-codec-other-def"):
+            re_ = real_encode(c["name"], dict(d))
+            ctx.evaluations += 1
+            if re_[0] != 0 or re_[2] != o[2]:
+                fail("c17-roundtrip", "decoded message does not re-encode to the consumed number of octets", c, observed=re_[:8])
+            else:
+                o2, d2 = real_decode(c["name"], bytes(re_[3:]), tab)
+                ctx.evaluations += 1
+                if o2 != o:
+                    fail("c17-roundtrip", "decode(encode(decode(d))) differs from decode(d)", c)
+                zero = bytes(re_[3:])
+                if zero[0] & 0x08 or (c["name"].startswith("PDUv2") and zero[1] & 0x40):
+                    fail("c17-reserved-zero", "re-encoding has a reserved header bit set", c, observed=hexs(zero[:4]))
+        k = (c["op"], c["name"], c["tag"], st)
+        if k not in shown and len(shown) < 8:
+            shown[k] = 1
+            ctx.sample(dict(case=show(c), impl=o[:16]))
+    ctx.extra["gen_definitions"] = {n: len(defs[n][1]) for n in PDUS}
+    ctx.extra["burst_len_unknown"] = [m for _, m in unknown]
+    ctx.extra["rule"] = ("definitions = Gen/TrxdProto.v reflected from the imported trxd_proto objects, run through the extracted C16 model and the real "
+                         "PDUvN.from_bytes/to_bytes; inputs: datagrams of the real TxMsg/RxMsg.gen_msg (sweep over versions, burst lengths, all 6 modulations x TSC "
+                         "sets, NOPE, legacy on/off + random valid messages), typed field dicts of all six classes (v2 with 0..8 batched sub-PDUs) and their encodings, "
+                         "wrong version nibble, truncation, trailing octets, reserved bits / spare octets set (main and first sub-PDU), junk; "
+                         "distinct_nontrivial = distinct (operation, class, input family, status, cause, #sub-PDUs, legacy, modulation/TSC-set/NOPE)")
